@@ -272,7 +272,25 @@ fn check_faulty(base: &Base, faults: &[Fault]) -> (Option<Viol>, bool) {
     let tag = names.join("+");
     match guarded(|| decode_slice(&doc)) {
         Err(p) => (Some(Viol::new(format!("C06/panic/{}/{tag}", panic_class(&p)), format!("decode_slice panicked: {p}\nmappings: {mappings:?}"), case)), true),
-        Ok(Err(_)) => (None, true),
+        Ok(Err(_)) => {
+            // the same document as the only section of an index map, and as a Hermes map: the
+            // other ways in which a mappings string reaches the decoder
+            if faults.len() == 1 {
+                let inner = String::from_utf8_lossy(&doc).to_string();
+                let wrapped = [
+                    ("index-section", format!("{{\"version\":3,\"sections\":[{{\"offset\":{{\"line\":0,\"column\":0}},\"map\":{inner}}}]}}")),
+                    ("hermes", format!("{},\"x_facebook_sources\":[]}}", &inner[..inner.len() - 1])),
+                ];
+                for (how, w) in wrapped {
+                    match guarded(|| decode_slice(w.as_bytes())) {
+                        Err(p) => return (Some(Viol::new(format!("C06/panic/{}/{tag}", panic_class(&p)), format!("decode_slice panicked on the {how} form: {p}\nmappings: {mappings:?}"), case)), true),
+                        Ok(Ok(_)) => return (Some(Viol::new(format!("C06/accepted-as-{how}/{tag}"), format!("mappings {mappings:?} (faults {faults:?}) are rejected in a regular map but accepted as {how}: {w}"), case)), true),
+                        Ok(Err(_)) => {}
+                    }
+                }
+            }
+            (None, true)
+        }
         Ok(Ok(dm)) => {
             let toks: Vec<String> = match &dm {
                 DecodedMap::Regular(sm) => sm.tokens().map(|t| format!("{t:#}")).collect(),
@@ -383,7 +401,7 @@ pub fn run(run: &mut Run) -> Finish {
 
     Finish {
         level: "fault_enumeration",
-        rule: "E1 fault enumeration on the real decoder. Bases: every well-formed document with <= 2 lines x <= 3 (thorough 4) segments of 1/4/5 fields for all (sources, names) array sizes in {0,1,2}^2 (each base must decode and all its references resolve). Faults, each at every site where it applies: arity 2/3/6/7; source and name running index set to len, len+1, -1, -len-1, 2^32+valid, -2^32+valid, 2^33+valid, 2^62+valid, +-2^63+valid (13 digits, the longest legal value) (other segments keep their absolute values); continuation bit on the segment's last digit; a segment turned into a 4-/5-field one although the sources / names array is empty; a field re-encoded with 14 and 15 digits; every non-alphabet ASCII byte except , ; and fifteen multi-byte characters (incl. code points whose low byte is a base64 digit) inserted at every offset. Then every ordered pair of structural faults at different sites and structural x foreign pairs on the two-segment bases. Oracle: decode_slice returns Err. Distinct by construction; every faulty document is non-trivial; class = fault type(s).".into(),
+        rule: "E1 fault enumeration on the real decoder (every singly faulted document also wrapped as the only section of an index map and as a Hermes map: rejected there too). Bases: every well-formed document with <= 2 lines x <= 3 (thorough 4) segments of 1/4/5 fields for all (sources, names) array sizes in {0,1,2}^2 (each base must decode and all its references resolve). Faults, each at every site where it applies: arity 2/3/6/7; source and name running index set to len, len+1, -1, -len-1, 2^32+valid, -2^32+valid, 2^33+valid, 2^62+valid, +-2^63+valid (13 digits, the longest legal value) (other segments keep their absolute values); continuation bit on the segment's last digit; a segment turned into a 4-/5-field one although the sources / names array is empty; a field re-encoded with 14 and 15 digits; every non-alphabet ASCII byte except , ; and fifteen multi-byte characters (incl. code points whose low byte is a base64 digit) inserted at every offset. Then every ordered pair of structural faults at different sites and structural x foreign pairs on the two-segment bases. Oracle: decode_slice returns Err. Distinct by construction; every faulty document is non-trivial; class = fault type(s).".into(),
         assumptions: vec!["JSON escaping of inserted characters is done by serde_json, so the decoder sees the raw character in the mappings string".into()],
         coverage_extra: json!({"bases": nb, "two_segment_bases": n2, "foreign_characters": fc.len()}),
     }
